@@ -1,5 +1,6 @@
 import Driver.DiamIO
 import ChfVerif.Model.Charging
+import ChfVerif.Spec.ChargingSpec
 /- line protocol of the `chf` stream: operations in, canonical observation out -/
 namespace Chf.Driver
 open Chf Chf.Charging
@@ -132,40 +133,56 @@ def noSplit : SplitGuard := fun _ _ => false
 def setAcct (s : State) (ue : Bytes) (rg : Nat) (q c : Bytes) : State :=
   { s with accts := setAccount s.accts ue rg q, tariffs := setTariff s.tariffs ue rg c }
 
-def credit (s : State) (ue : Bytes) (rg : Nat) (amt : Int) : State :=
-  match Abmf.find s.accts ue rg with
-  | some q => (match q.parse with
-    | some v => { s with accts := Abmf.put s.accts ue rg (.num (v + amt)) }
-    | none => s)
-  | none => s
+/-- the rating groups an operation may move money for -/
+def opPairs : Op → List (Bytes × Int)
+  | .update _ r | .release _ r => (r.usages.map fun u => (r.supi, u.rg)).eraseDups
+  | .credit supi rg _ => [(supi, (rg : Int))]
+  | _ => []
 
-def chfOp (guard : SplitGuard) (s : State) : Tok → State × String
+/-- annotations (tokens starting with '#', ignored by the correspondence diff): is the operation inside
+    the property's quantifier (`opOKb`), which money movement the theorems prescribe (`creditedOp - ratedOp`),
+    is the consumer compliant (`compliantB`) -/
+def annot (s : State) (Ls : Ledgers) (op : Op) : String :=
+  let net := (opPairs op).map fun (supi, rg) =>
+    s!"{hexOfBytes supi}/{rg}:{creditedOp s op supi rg - ratedOp s op supi rg}"
+  s!"#ok={if opOKb s op then 1 else 0} #comp={if opCompliantB s Ls op then 1 else 0} #net={joinOr ";" net}"
+
+abbrev ChfSt := State × Ledgers
+
+def runOp (guard : SplitGuard) (sl : ChfSt) (op : Op) : ChfSt × String :=
+  let (s, Ls) := sl
+  let (s', o) := step guard s op
+  ((s', ledgersStep s Ls op), sResp o ++ " " ++ sState s' ++ " " ++ annot s Ls op)
+
+def chfOp (guard : SplitGuard) (sl : ChfSt) : Tok → ChfSt × String
   | ["acct", ue, rg, q, c] =>
     (match bytesOfHex ue, rg.toNat?, bytesOfHex q, bytesOfHex c with
-     | some ue, some rg, some q, some c => (setAcct s ue rg q c, "ok")
-     | _, _, _, _ => (s, "bad-op"))
+     | some ue, some rg, some q, some c => ((setAcct sl.1 ue rg q c, sl.2), "ok")
+     | _, _, _, _ => (sl, "bad-op"))
   | ["credit", ue, rg, amt] =>
     (match bytesOfHex ue, rg.toNat?, amt.toInt? with
-     | some ue, some rg, some amt => (credit s ue rg amt, "ok")
-     | _, _, _ => (s, "bad-op"))
-  | ["end"] => (s, "ok")
-  | ["reset"] => ({}, "ok")
+     | some ue, some rg, some amt =>
+       let op := Op.credit ue rg amt
+       (((step guard sl.1 op).1, ledgersStep sl.1 sl.2 op), "ok " ++ annot sl.1 sl.2 op)
+     | _, _, _ => (sl, "bad-op"))
+  | ["end"] => (sl, "ok")
+  | ["reset"] => (({}, []), "ok")
   | "create" :: t =>
     (match pReq t with
-     | some (r, []) => let (s', o) := step guard s (.create r); (s', sResp o ++ " " ++ sState s')
-     | _ => (s, "bad-op"))
+     | some (r, []) => runOp guard sl (.create r)
+     | _ => (sl, "bad-op"))
   | "update" :: sid :: t =>
     (match bytesOfHex sid, pReq t with
-     | some sid, some (r, []) => let (s', o) := step guard s (.update sid r); (s', sResp o ++ " " ++ sState s')
-     | _, _ => (s, "bad-op"))
+     | some sid, some (r, []) => runOp guard sl (.update sid r)
+     | _, _ => (sl, "bad-op"))
   | "release" :: sid :: t =>
     (match bytesOfHex sid, pReq t with
-     | some sid, some (r, []) => let (s', o) := step guard s (.release sid r); (s', sResp o ++ " " ++ sState s')
-     | _, _ => (s, "bad-op"))
+     | some sid, some (r, []) => runOp guard sl (.release sid r)
+     | _, _ => (sl, "bad-op"))
   | ["recharge", info] =>
     (match bytesOfHex info with
-     | some info => let (s', o) := step guard s (.recharge info); (s', sResp o ++ " " ++ sState s')
-     | none => (s, "bad-op"))
-  | _ => (s, "bad-op")
+     | some info => runOp guard sl (.recharge info)
+     | none => (sl, "bad-op"))
+  | _ => (sl, "bad-op")
 
 end Chf.Driver
